@@ -170,6 +170,54 @@ int main(int argc, char** argv) {
             if (probes.empty()) pending.push_back(scan_line);
             continue;
         }
+        if (w[0] == "phantom_iscan" && w.size() == 9) {
+            // phantom_iscan <sess> <storage> <lkey> <lend> <rkey> <rend> <r2l> <nprobe>: a cursor drained to
+            // the end with a callback that collects node versions, then inserts of absent keys of the interval
+            std::string n, lk, rk;
+            vh::unhex(w[2], n); vh::unhex(w[3], lk); vh::unhex(w[5], rk);
+            std::size_t nprobe = std::strtoull(w[8].c_str(), nullptr, 10);
+            std::vector<std::tuple<std::string, char*, std::size_t>> tl;
+            auto rc = scan<char>(n, lk, ep(w[4]), rk, ep(w[6]), tl, nullptr, 0, false);
+            std::string open_line = "iopen pc " + w[2] + " " + w[3] + " " + w[4] + " " + w[5] + " " + w[6] + " " + w[7] + " 0";
+            if (rc != status::OK) { pending.push_back("iclose pc"); pending.push_back(open_line); continue; }
+            auto in_iv = [&](const std::string& k) {
+                if (w[4] == "I" && k < lk) return false;
+                if (w[4] == "E" && k <= lk) return false;
+                if (w[6] == "I" && k > rk) return false;
+                if (w[6] == "E" && k >= rk) return false;
+                return true;
+            };
+            std::vector<std::string> cands;
+            auto add_around = [&](const std::string& k) {
+                cands.push_back(k);
+                cands.push_back(k + std::string(1, '\0'));
+                cands.push_back(k + "a");
+                if (!k.empty()) { cands.push_back(k.substr(0, k.size() - 1)); std::string z = k; z.back() = static_cast<char>(z.back() - 1); cands.push_back(z); z.push_back('\xff'); cands.push_back(z); }
+                if (k.size() > 8) { cands.push_back(k.substr(0, 8)); cands.push_back(k.substr(0, 8) + std::string(1, '\0')); }
+            };
+            add_around(lk); add_around(rk);
+            for (auto& e : tl) add_around(std::get<0>(e));
+            cands.push_back("m");
+            std::vector<std::string> probes;
+            for (auto& c : cands) {
+                if (probes.size() >= nprobe) break;
+                if (!in_iv(c) || c.size() > 200) continue;
+                std::pair<char*, std::size_t> g{};
+                if (get<char>(n, c, g) != status::WARN_NOT_EXIST) continue;
+                if (std::find(probes.begin(), probes.end(), c) != probes.end()) continue;
+                probes.push_back(c);
+            }
+            for (auto it = probes.rbegin(); it != probes.rend(); ++it) {
+                pending.push_back("remove " + w[1] + " " + w[2] + " " + hex(*it));
+                pending.push_back("nvcheck");
+                pending.push_back("put " + w[1] + " " + w[2] + " " + hex(*it) + " 70 1 0 none");
+                pending.push_back("iclose pc");
+                pending.push_back("idrain pc 1000000");
+                pending.push_back(open_line);
+            }
+            if (probes.empty()) { pending.push_back("iclose pc"); pending.push_back("idrain pc 1000000"); pending.push_back(open_line); }
+            continue;
+        }
         if (w[0] == "phantom_get" && w.size() == 4) {
             // phantom_get <sess> <storage> <key>: a miss with checked_version, then the same key inserted
             std::string n, k;
@@ -352,6 +400,7 @@ int main(int argc, char** argv) {
                 if (g_cursors.count(w[1]) && g_cursors[w[1]].ctx) iscan_close(g_cursors[w[1]].ctx);
                 c = &g_cursors[w[1]];
                 c->storage = n;
+                g_last_nv.clear();
                 rc = iscan_open(n, lk, ep(w[4]), rk, ep(w[6]), w[7] == "1", w[8] == "1", c->ctx, out, cb);
             } else {
                 auto it = g_cursors.find(w[1]);
@@ -360,6 +409,7 @@ int main(int argc, char** argv) {
                 rc = iscan_next(c->ctx, out, cb);
             }
             c->done = rc != status::OK;
+            for (auto& e : cbs) g_last_nv.emplace_back(e.second, e.first);
             r << st(rc);
             if (rc == status::OK) {
                 std::string fk = c->ctx->full_key();
